@@ -302,10 +302,10 @@ Proof.
     eapply good_trans; [exact G1|]. eapply good_trans; [exact G2|]. apply IH. apply G2.
 Qed.
 
-Lemma good_request : forall nd r el,
-  ninv nd -> q_from r <> n_index nd -> good nd (fst (handle_request nd r el)).
+Lemma good_request : forall rv nd r el,
+  ninv nd -> q_from r <> n_index nd -> good nd (fst (handle_request rv nd r el)).
 Proof.
-  intros nd r el I Hne. unfold handle_request. destruct (q_kind r) as [logs| | |].
+  intros rv nd r el I Hne. unfold handle_request. destruct (q_kind r) as [logs| | |].
   - (* Append *)
     unfold append_request. destruct (validate_term nd r); cbn [fst]; [apply good_refl; auto|].
     pose proof (good_become_follower nd r I) as G1.
@@ -332,12 +332,13 @@ Proof.
     destruct (validate_vote_state nd r); cbn [fst]; [apply good_refl; auto|].
     destruct (validate_term_for_vote nd r); cbn [fst]; [apply good_refl; auto|].
     destruct (validate_log_for_vote nd r); cbn [fst]; [apply good_refl; auto|].
-    apply good_set_state; auto.
+    destruct (fix_vote_term rv); [|apply good_set_state; auto].
+    eapply good_trans; [apply good_set_term; eauto | apply good_set_state; apply good_set_term; auto].
 Qed.
 
-Lemma request_to : forall nd r el, s_to (snd (handle_request nd r el)) = q_from r.
+Lemma request_to : forall rv nd r el, s_to (snd (handle_request rv nd r el)) = q_from r.
 Proof.
-  intros nd r el. unfold handle_request. destruct (q_kind r) as [logs| | |].
+  intros rv nd r el. unfold handle_request. destruct (q_kind r) as [logs| | |].
   - unfold append_request. destruct (validate_term nd r) eqn:V; cbn [snd].
     + unfold validate_term in V. destruct (q_term r <? n_term nd); inversion V; reflexivity.
     + generalize (update_node (become_follower nd r) r). induction logs as [|log rest IH]; intros n0; cbn [append_logs snd].
@@ -405,14 +406,14 @@ Proof.
   eapply good_trans; [exact G1|]. apply good_commit_storage; [apply G1|auto].
 Qed.
 
-Lemma good_response : forall nd r s,
-  ninv nd -> q_to r <> n_index nd -> good nd (fst (handle_response nd r s)).
+Lemma good_response : forall rv nd r s,
+  ninv nd -> q_to r <> n_index nd -> good nd (fst (handle_response rv nd r s)).
 Proof.
-  intros nd r s I Hne. unfold handle_response.
+  intros rv nd r s I Hne. unfold handle_response.
   destruct (n_state nd); destruct (q_kind r); destruct (s_result s); cbn [fst];
     first [ apply good_refl; exact I
           | apply good_pre_vote_received; exact I
-          | apply good_vote_received; exact I
+          | destruct (vote_counts rv nd r); cbn [fst]; [apply good_vote_received; exact I | apply good_refl; exact I]
           | apply good_commit; [exact I|exact Hne]
           | match goal with |- context [if ?b then _ else _] => destruct b end; cbn [fst];
             [ eapply good_trans; [apply good_set_term; exact I|];
@@ -475,12 +476,13 @@ Qed.
 Lemma reqs_hb_no_timer : forall nd, reqs_ok (n_index nd) (heartbeat_no_timer nd).
 Proof. intros. unfold heartbeat_no_timer. apply reqs_ok_others. Qed.
 
-Lemma reqs_response : forall nd r s,
-  q_to r <> n_index nd -> reqs_ok (n_index nd) (snd (handle_response nd r s)).
+Lemma reqs_response : forall rv nd r s,
+  q_to r <> n_index nd -> reqs_ok (n_index nd) (snd (handle_response rv nd r s)).
 Proof.
-  intros nd r s Hne. unfold handle_response.
+  intros rv nd r s Hne. unfold handle_response.
   destruct (n_state nd); destruct (q_kind r); destruct (s_result s); cbn [snd];
     try apply reqs_ok_nil;
+    try (destruct (vote_counts rv nd r); cbn [snd]; [|apply reqs_ok_nil]);
     try (match goal with |- context [if ?b then _ else _] => destruct b end; cbn [snd]; apply reqs_ok_nil).
   all: try (unfold pre_vote_received; destruct (_ <? _); cbn [snd]; [|apply reqs_ok_nil];
             apply (reqs_election (upd_peer nd (q_to r) (p_set_voted true)))).
@@ -542,9 +544,9 @@ Proof.
   apply in_map_iff in Hm as [q [<- Hq]]. cbn. destruct (R _ Hq) as [-> Hne]. congruence.
 Qed.
 
-Lemma step_inv : forall c e, cinv c -> cinv (step c e) /\ nstable (c_nodes c) (c_nodes (step c e)).
+Lemma step_inv : forall rv c e, cinv c -> cinv (step rv c e) /\ nstable (c_nodes c) (c_nodes (step rv c e)).
 Proof.
-  intros c e [HN HM]. destruct e as [i el due | k el | k | k | i d]; cbn [step].
+  intros rv c e [HN HM]. destruct e as [i el due | k el | k | k | i d]; cbn [step].
   - (* Tick *)
     destruct (get_node c i) as [nd|] eqn:G; [|split; [split; auto | apply nstable_refl]].
     pose proof (good_process nd el due (proj1 (HN _ _ G))) as Gd.
@@ -559,9 +561,9 @@ Proof.
       destruct (get_node c (q_to r)) as [nd|] eqn:G; [|split; [split; auto | apply nstable_refl]].
       pose proof (get_node_index _ _ _ HN G) as Ei.
       assert (Hne : q_from r <> n_index nd) by congruence.
-      pose proof (good_request nd r el (proj1 (HN _ _ G)) Hne) as Gd.
-      pose proof (request_to nd r el) as To.
-      destruct (handle_request nd r el) as [nd' s]. cbn [fst snd] in *. cbn [c_nodes c_net].
+      pose proof (good_request rv nd r el (proj1 (HN _ _ G)) Hne) as Gd.
+      pose proof (request_to rv nd r el) as To.
+      destruct (handle_request rv nd r el) as [nd' s]. cbn [fst snd] in *. cbn [c_nodes c_net].
       destruct (nodes_put c (q_to r) nd nd' HN G Gd) as [N1 N2].
       split; [split|]; auto. intros m Hm. apply in_app_or in Hm as [Hm|[<-|[]]]; auto. cbn. auto.
     + pose proof (HM _ (nth_error_In _ _ Hk)) as Hok. cbn in Hok. destruct Hok as [Hft Hto].
@@ -569,9 +571,9 @@ Proof.
       destruct (get_node c (s_to s)) as [nd|] eqn:G; [|split; [split; auto | apply nstable_refl]].
       pose proof (get_node_index _ _ _ HN G) as Ei.
       assert (Hne : q_to r <> n_index nd) by congruence.
-      pose proof (good_response nd r s (proj1 (HN _ _ G)) Hne) as Gd.
-      pose proof (reqs_response nd r s Hne) as R.
-      destruct (handle_response nd r s) as [nd' reqs]. cbn [fst snd] in *. cbn [c_nodes c_net].
+      pose proof (good_response rv nd r s (proj1 (HN _ _ G)) Hne) as Gd.
+      pose proof (reqs_response rv nd r s Hne) as R.
+      destruct (handle_response rv nd r s) as [nd' reqs]. cbn [fst snd] in *. cbn [c_nodes c_net].
       destruct (nodes_put c (s_to s) nd nd' HN G Gd) as [N1 N2].
       split; [split|]; auto. eapply net_add_reqs; eauto.
   - (* Drop *)
@@ -591,11 +593,11 @@ Proof.
     split; [split|]; auto. eapply net_add_reqs; eauto.
 Qed.
 
-Lemma run_from_inv : forall evs c, cinv c -> cinv (run_from c evs) /\ nstable (c_nodes c) (c_nodes (run_from c evs)).
+Lemma run_from_inv : forall rv evs c, cinv c -> cinv (run_from rv c evs) /\ nstable (c_nodes c) (c_nodes (run_from rv c evs)).
 Proof.
-  induction evs as [|e evs IH]; intros c H; cbn [run_from fold_left].
+  intros rv. induction evs as [|e evs IH]; intros c H; cbn [run_from fold_left].
   - split; auto using nstable_refl.
-  - destruct (step_inv c e H) as [H1 S1]. destruct (IH _ H1) as [H2 S2].
+  - destruct (step_inv rv c e H) as [H1 S1]. destruct (IH _ H1) as [H2 S2].
     split; auto. eapply nstable_trans; eauto.
 Qed.
 
@@ -626,34 +628,34 @@ Qed.
 
 (* ================================================================== C28 (a), (b) *)
 
-Lemma fold_run_app : forall size evs evs', run size (evs ++ evs') = run_from (run size evs) evs'.
+Lemma fold_run_app : forall rv size evs evs', run rv size (evs ++ evs') = run_from rv (run rv size evs) evs'.
 Proof. intros. unfold run, run_from. apply fold_left_app. Qed.
 
-Theorem commit_monotone : forall size evs evs' i,
-  size <> 1 -> commit_of (run size evs) i <= commit_of (run size (evs ++ evs')) i.
+Theorem commit_monotone : forall rv size evs evs' i,
+  size <> 1 -> commit_of (run rv size evs) i <= commit_of (run rv size (evs ++ evs')) i.
 Proof.
-  intros size evs evs' i Hs. rewrite fold_run_app.
-  destruct (run_from_inv evs (init_default size) (init_inv size Hs)) as [H1 _].
-  destruct (run_from_inv evs' (run size evs) H1) as [_ S].
-  unfold commit_of. destruct (nth_error (c_nodes (run size evs)) i) as [nd|] eqn:E; [|lia].
+  intros rv size evs evs' i Hs. rewrite fold_run_app.
+  destruct (run_from_inv rv evs (init_default size) (init_inv size Hs)) as [H1 _].
+  destruct (run_from_inv rv evs' (run rv size evs) H1) as [_ S].
+  unfold commit_of. destruct (nth_error (c_nodes (run rv size evs)) i) as [nd|] eqn:E; [|lia].
   destruct (S _ _ E) as [nd' [E' (_ & _ & _ & C & _)]]. rewrite E'. exact C.
 Qed.
 
-Theorem committed_stable : forall size evs evs' i idx e,
+Theorem committed_stable : forall rv size evs evs' i idx e,
   size <> 1 ->
-  idx <= commit_of (run size evs) i ->
-  log_at (logs_of (run size evs) i) idx = Some e ->
-  log_at (logs_of (run size (evs ++ evs')) i) idx = Some e.
+  idx <= commit_of (run rv size evs) i ->
+  log_at (logs_of (run rv size evs) i) idx = Some e ->
+  log_at (logs_of (run rv size (evs ++ evs')) i) idx = Some e.
 Proof.
-  intros size evs evs' i idx e Hs Hc Hl. rewrite fold_run_app.
-  destruct (run_from_inv evs (init_default size) (init_inv size Hs)) as [H1 _].
-  destruct (run_from_inv evs' (run size evs) H1) as [_ S].
-  unfold commit_of, logs_of in *. destruct (nth_error (c_nodes (run size evs)) i) as [nd|] eqn:E.
+  intros rv size evs evs' i idx e Hs Hc Hl. rewrite fold_run_app.
+  destruct (run_from_inv rv evs (init_default size) (init_inv size Hs)) as [H1 _].
+  destruct (run_from_inv rv evs' (run rv size evs) H1) as [_ S].
+  unfold commit_of, logs_of in *. destruct (nth_error (c_nodes (run rv size evs)) i) as [nd|] eqn:E.
   - destruct (S _ _ E) as [nd' [E' (_ & _ & _ & _ & K)]]. rewrite E'. apply K; auto.
   - cbn in Hl. unfold log_at in Hl. destruct (idx =? 0); [discriminate|]. destruct (N.to_nat (idx - 1)); discriminate.
 Qed.
 
-Lemma C28ab_example :
-  let c := run w28_ack_diverged_n w28_ack_diverged in
+Lemma C28ab_example : forall rv,
+  let c := run rv w28_ack_diverged_n w28_ack_diverged in
   commit_of c 1 = 2 /\ log_at (logs_of c 1) 2 = Some (mkEntry 2 2 22).
-Proof. vm_compute. auto. Qed.
+Proof. intros [[|] [|]]; vm_compute; auto. Qed.
